@@ -131,7 +131,7 @@ def _run(cmd, cwd=None, env=None, timeout=None, logf=None):
 def run_tool(tool, args, workdir, release=True):
     """Build and run a native helper under /verif/tools against /repo (nightly, hooks on)."""
     tdir = os.path.join(ROOT, "tools", tool)
-    shutil.copyfile(os.path.join(REPO, "Cargo.lock"), os.path.join(tdir, "Cargo.lock"))
+    shutil.copyfile(repo_lock(), os.path.join(tdir, "Cargo.lock"))
     env = dict(ENV)
     env["RUSTUP_TOOLCHAIN"] = "nightly"
     env["RUSTFLAGS"] = "--cfg weechess_verif -Awarnings"
@@ -146,6 +146,12 @@ def run_tool(tool, args, workdir, release=True):
         lockf.close()
 
 
+def repo_lock():
+    """/repo's Cargo.lock is git-ignored there; a snapshot of its HEAD has none: fall back to the pinned copy."""
+    p = os.path.join(REPO, "Cargo.lock")
+    return p if os.path.exists(p) else os.path.join(ROOT, "harness", "Cargo.lock.pinned")
+
+
 def crate_dir(crate):
     return os.path.join(ROOT, "harness", crate)
 
@@ -158,7 +164,7 @@ def build_crate(crate, feature, workdir):
     lockf = open(os.path.join(TARGET, crate + ".lock"), "w")
     fcntl.flock(lockf, fcntl.LOCK_EX)
     try:
-        shutil.copyfile(os.path.join(REPO, "Cargo.lock"), os.path.join(cdir, "Cargo.lock"))
+        shutil.copyfile(repo_lock(), os.path.join(cdir, "Cargo.lock"))
         outroot = os.path.join(tdir, "kani", TRIPLE, "debug", "build", "vh_" + crate)
         shutil.rmtree(outroot, ignore_errors=True)
         cmd = ["cargo", "kani", "--only-codegen", "--no-assertion-reach-checks", "--features", feature, "-Z", "stubbing", "--target-dir", tdir]
